@@ -123,6 +123,9 @@ COMMIT;
             )?
         }
         self.conn.pragma_update(None, "foreign_keys", 1)?;
+        // INSERT OR REPLACE (ignore_dups) deletes the older duplicate: the delete trigger that keeps the
+        // full-text index in sync only fires for such deletions when recursive triggers are on
+        self.conn.pragma_update(None, "recursive_triggers", 1)?;
         if self.ignore_dups || user_version > 0 {
             self.set_ignore_dups()?;
         }
